@@ -22,7 +22,11 @@ RULE = ('version pairs: full cross product of a grid with multi-digit components
 TRUSTED = ['harness/c15.py fake port (scripted readline/write/open outcomes) and the AST literal extractor',
            'modelled not verified: packaging.version on release-only versions (validated by this run against the '
            'installed packaging), pyserial (replaced by the script), str.strip/in/split on ASCII']
-ASSUMPTIONS = ['device bytes are ASCII; version texts are release-only (digits and dots, optional v) with components '
+ASSUMPTIONS = ['C15_gen_* domain: scripts whose faults are serial I/O exception classes and whose lines are ASCII (PortOk); '
+               'version texts without a leading v (NoV: the translator runtime\'s parse rejects one, packaging accepts it); '
+               'fuel >= 101; a port write that raises is recorded in the runtime\'s log (attempted writes), whereas the '
+               'hand model and the harness count only what reached the device',
+               'device bytes are ASCII; version texts are release-only (digits and dots, optional v) with components '
                'below the int-string-digits limit; a reply containing EBB but no "Firmware Version " text, and '
                'pre-release/dev version texts, are outside the quantifier (logged)',
                'port location (find_first/find_named, C19) is an input of the connect model',
@@ -32,7 +36,13 @@ ASSUMPTIONS = ['device bytes are ASCII; version texts are release-only (digits a
                'SerialException, and plain OSError/IOError (pyserial posix open() lets the OSError of its DTR/RTS ioctl '
                'escape; command()/query() list these classes). The Lean model covers the classes the try block of connect '
                'contains (read from the AST); OSError scenarios are always judged by the oracle']
-STAGED = []
+STAGED = ['regenerated-code theorems (C15_gen_*): bridged are the legacy gate min_version (no abstraction left), the five '
+          'gated legacy features (what is attempted on the wire and when), EBB3.parse_version / min_version, and '
+          'EBB3.connect up to and including the minimum-version check (every refusal, and "True only if identified and '
+          'supported"). NOT bridged: the tail of connect after the check (CU,10,1 + nickname query; owned by the C04/C05 '
+          'bridges of EBB3.query), _get_port_name for given_name=None (find_first: C19; a hypothesis of the connect '
+          'theorems, discharged for a given name by C15_gen_located), and the return values of the gated legacy features '
+          '(the runtime int()/strip primitives differ from the C15 model outside plain decimal text)']
 
 MIN_DOC = (3, 0, 2)                       # "the supported minimum" (DESIGN C15, MIN_VERSION_STRING comment)
 GATE_DOC = {'query_nickname': (2, 5, 5),  # docstring "Requires firmware version 2.5.5 or newer"
